@@ -108,4 +108,26 @@ mod verif_bounded_strings {
             }
         } }
     }
+    // C06 / C15: the decoder of the group-data extension never panics and accepts exactly the documented field lengths. This function IS
+    // under contract (unit ext_codec); the bounded run is a second line for changes the contract unit cannot type-check (it models the four
+    // optional byte fields with a wrapper type). Scope: each of the four optional fields with every length 0..=40, the others valid.
+    #[test]
+    fn group_data_extension_field_lengths_never_panic() {
+        use crate::extension::types::{NostrGroupDataExtension, TlsNostrGroupDataExtension};
+        let label = "strings_bounded.group_data_extension_field_lengths";
+        let base = || TlsNostrGroupDataExtension { version: 2, nostr_group_id: [7u8; 32], name: b"n".to_vec(), description: b"d".to_vec(), admin_pubkeys: vec![], relays: vec![],
+                                                   image_hash: vec![], image_key: vec![], image_nonce: vec![], image_upload_key: vec![] };
+        for (field, want) in [("image_hash", 32usize), ("image_key", 32), ("image_nonce", 12), ("image_upload_key", 32)] {
+            for len in 0..=40usize {
+                let mut raw = base();
+                let bytes = vec![9u8; len];
+                match field { "image_hash" => raw.image_hash = bytes, "image_key" => raw.image_key = bytes, "image_nonce" => raw.image_nonce = bytes, _ => raw.image_upload_key = bytes }
+                let scen = format!("group-data extension (version 2) whose {field} has {len} bytes, every other field valid");
+                match catch_unwind(AssertUnwindSafe(|| NostrGroupDataExtension::from_raw(raw))) {
+                    Err(_) => fail(label, &scen, "NostrGroupDataExtension::from_raw PANICS (C06: hostile input must get an error, not a panic)"),
+                    Ok(r) => { let ok = len == 0 || len == want; if r.is_ok() != ok { fail(label, &scen, &format!("from_raw answered {} ; the documented lengths are 0 (absent) or {want}", if r.is_ok() { "Ok" } else { "Err" })); } }
+                }
+            }
+        }
+    }
 }
